@@ -10,10 +10,18 @@ ACCEPTED SUBSET (anything else raises TranslateError = broken proof obligation):
   functions  : module-level _parse_digits; isoparser methods _parse_tzstr, _calculate_weekdate,
                _parse_isodate_common, _parse_isodate_uncommon, _parse_isodate, _parse_isotime, isoparse,
                parse_isodate, parse_isotime, parse_tzstr, with exactly the parameter names of SIGS;
-               the decorator @_takes_ascii (-> takes_ascii); class constants _DATE_SEP, _TIME_SEP (bytes
+               the decorator _takes_ascii itself (-> gen_takes_ascii over the input kinds str / bytes / stream of
+               either, see translate_takes_ascii); class constants _DATE_SEP, _TIME_SEP (bytes
                literals) and _FRACTION_REGEX = re.compile(b'[\\\\.,]([0-9]+)') (-> frac_match).
-               _takes_ascii, isoparser.__init__ and the module tail are NOT translated: they are pinned by
-               the hash of their AST (any edit aborts) and stay hand-modelled (takes_ascii, init_sep).
+               isoparser.__init__ and the module tail are NOT translated: they are pinned by
+               the hash of their AST (any edit aborts) and stay hand-modelled (init_sep).
+  module     : also pinned by hash: the import statements (so date / datetime / time / timedelta / calendar / tz /
+               re / six / wraps are the names the translator takes them for) and the argument expressions of every
+               `raise ValueError(...)` (they are not evaluated by the model).  Module-level statements other than
+               the docstring, imports, the pinned tail assignments, _takes_ascii, _parse_digits and
+               `class isoparser(object)` (no decorators, no keywords) abort; so does any binding (assignment,
+               parameter, loop / except / comprehension variable) of a name the translator gives a fixed meaning
+               (len int any date datetime time timedelta calendar tz re six ValueError OverflowError ...).
   statements : docstring; x = e; x op= e (+=, -=); lst[i] = e; a, b = call; lst += call;
                if / elif / else (continuations are duplicated into the branches); return e;
                raise ValueError(...) and six.raise_from(ValueError(...), e) (arguments ignored);
@@ -76,12 +84,18 @@ LOOP_FUEL = {"_parse_isotime": 6}          # justified by the theorems: OutOfFue
 FRACTION_PATTERN = b"[\\.,]([0-9]+)"
 # sha256 of ast.dump of the untranslated, hand-modelled parts (docstrings removed)
 PINNED = {
-    "_takes_ascii": "8f504034b20cc3a2",
     "__init__": "c2c4e97ac9781732",
     "tail": "a556a95a63408b0e",
+    "imports": "d811d784b5ece1dc",
+    "raise_args": "71f1d2acf927b766",
 }
+# names with a fixed meaning in the translator: they must not be rebound anywhere in the translated code
+RESERVED = {"len", "int", "any", "ord", "getattr", "isinstance", "bytearray", "date", "datetime", "time", "timedelta",
+            "calendar", "tz", "re", "six", "wraps", "ValueError", "OverflowError", "UnicodeEncodeError", "Exception",
+            "True", "False", "None", "_parse_digits", "_takes_ascii", "isoparser", "object", "bytes", "str"}
+IN, PAYLOAD, TEXT = "pyin", "payload", "text"
 
-COQTY = {INT: "Z", BOOL: "bool", BYTES: "list Z", DATE: "date3", TZ: "tzv", OPTBYTES: "option (list Z)",
+COQTY = {IN: "pyin", INT: "Z", BOOL: "bool", BYTES: "list Z", DATE: "date3", TZ: "tzv", OPTBYTES: "option (list Z)",
          DATETIME: "dt8", TIME: "time5"}
 
 
@@ -900,11 +914,161 @@ def translate_fn(name, node, consts):
     if decorated:
         first = ps[0][0]
         plist = " ".join("(v_%s%s : %s)" % (pn, "0" if pn == first else "", coqty(pt)) for pn, pt, _ in ps)
-        body = "takes_ascii v_%s0 (fun v_%s =>\n%s)" % (first, first, body)
+        plist = " ".join("(v_%s%s : %s)" % (pn, "0" if pn == first else "", coqty(IN if pn == first else pt))
+                         for pn, pt, _ in ps)
+        body = "gen_takes_ascii v_%s0 (fun v_%s =>\n%s)" % (first, first, body)
     else:
         plist = " ".join("(v_%s : %s)" % (pn, coqty(pt)) for pn, pt, _ in ps)
     out = list(fn.aux)
     out.append("Definition gen_%s %s%s : res %s :=\n%s." % (name, sep, plist, coqty(rty), body))
+    return out
+
+
+def _same(node, template):
+    """structural equality of an expression with a template given as source text"""
+    return ast.dump(node) == ast.dump(ast.parse(template, mode="eval").body)
+
+
+def translate_takes_ascii(node):
+    """def _takes_ascii(f): @wraps(f) def func(self, str_in, *args, **kwargs): <body>; return func
+    The body is translated statement by statement over the typed variable str_in:
+      pyin     --  str_in = getattr(str_in, 'read', lambda: str_in)()            --> payload   (read_in)
+      payload  --  if isinstance(str_in, six.text_type): A else: B                --> match: text in A, bytes in B
+      text     --  try: str_in = str_in.encode('ascii')
+                   except UnicodeEncodeError as e: <raise ValueError>             --> bytes     (encode_ascii)
+      bytes    --  if any(b >= N for b in bytearray(str_in)): A else: B           --> existsb
+      raise ValueError(...) / six.raise_from(ValueError(...), e); msg = '<constant>'
+      bytes    --  return f(self, str_in, *args, **kwargs)                        --> v_f v_str_in"""
+    a = node.args
+    if ([x.arg for x in a.args] != ["f"] or a.vararg or a.kwarg or a.kwonlyargs or a.posonlyargs or a.defaults
+            or node.decorator_list):
+        bail("unexpected signature of _takes_ascii", node)
+    body = [n for n in node.body if not (isinstance(n, ast.Expr) and isinstance(n.value, ast.Constant))]
+    if (len(body) != 2 or not isinstance(body[0], ast.FunctionDef) or not isinstance(body[1], ast.Return)
+            or not isinstance(body[1].value, ast.Name) or body[1].value.id != body[0].name):
+        bail("_takes_ascii must define one wrapper and return it", node)
+    w = body[0]
+    wa = w.args
+    if ([x.arg for x in wa.args] != ["self", "str_in"] or wa.vararg is None or wa.vararg.arg != "args"
+            or wa.kwarg is None or wa.kwarg.arg != "kwargs" or wa.kwonlyargs or wa.posonlyargs or wa.defaults):
+        bail("unexpected signature of the _takes_ascii wrapper", w)
+    if len(w.decorator_list) != 1 or not _same(w.decorator_list[0], "wraps(f)"):
+        bail("the _takes_ascii wrapper must be decorated with @wraps(f) only", w)
+    check_reserved(w, extra_ok=())
+    V = "str_in"
+
+    def raise_ve(s):
+        return is_raise_valueerror(s)
+
+    def blk(stmts, ty, k_end):
+        """CPS over a statement list; ty = current type of str_in; k_end(ty) = what follows the list"""
+        if not stmts:
+            return k_end(ty)
+        st, rest = stmts[0], stmts[1:]
+        cont = lambda ty2: blk(rest, ty2, k_end)
+        if isinstance(st, ast.Expr) and isinstance(st.value, ast.Constant) and isinstance(st.value.value, str):
+            return cont(ty)
+        if raise_ve(st):
+            return "Err ValueError"
+        if isinstance(st, ast.Assign) and len(st.targets) == 1 and isinstance(st.targets[0], ast.Name):
+            tg = st.targets[0].id
+            if tg == V and _same(st.value, "getattr(str_in, 'read', lambda: str_in)()"):
+                if ty != IN:
+                    bail("read() of something that is not the raw argument", st)
+                return "let v_str_in := read_in v_str_in0 in\n" + cont(PAYLOAD)
+            if tg != V and isinstance(st.value, ast.Constant) and isinstance(st.value.value, str):
+                return cont(ty)                 # msg = '...'
+            bail("unsupported assignment in _takes_ascii", st)
+        if isinstance(st, ast.If):
+            t = st.test
+            if _same(t, "isinstance(str_in, six.text_type)"):
+                if ty != PAYLOAD:
+                    bail("isinstance test on a value whose kind is already known", st)
+                return ("match v_str_in with\n| PText v_str_in =>\n%s\n| PBytes v_str_in =>\n%s\nend"
+                        % (blk(st.body, TEXT, cont), blk(st.orelse, BYTES, cont)))
+            if (isinstance(t, ast.Call) and isinstance(t.func, ast.Name) and t.func.id == "any" and len(t.args) == 1
+                    and not t.keywords and isinstance(t.args[0], ast.GeneratorExp)):
+                g = t.args[0]
+                if (len(g.generators) == 1 and not g.generators[0].ifs and not g.generators[0].is_async
+                        and isinstance(g.generators[0].target, ast.Name)
+                        and _same(g.generators[0].iter, "bytearray(str_in)")
+                        and isinstance(g.elt, ast.Compare) and len(g.elt.ops) == 1
+                        and isinstance(g.elt.left, ast.Name) and g.elt.left.id == g.generators[0].target.id
+                        and isinstance(g.elt.comparators[0], ast.Constant)
+                        and type(g.elt.comparators[0].value) is int):
+                    if ty != BYTES:
+                        bail("bytearray() of a value that is not known to be bytes", st)
+                    nconst = lit(g.elt.comparators[0].value)
+                    b = "v_" + g.generators[0].target.id
+                    op = g.elt.ops[0]
+                    cmp_ = {ast.GtE: "(%s <=? %s)" % (nconst, b), ast.Gt: "(%s <? %s)" % (nconst, b),
+                            ast.LtE: "(%s <=? %s)" % (b, nconst), ast.Lt: "(%s <? %s)" % (b, nconst),
+                            ast.Eq: "(%s =? %s)" % (b, nconst), ast.NotEq: "negb (%s =? %s)" % (b, nconst)}.get(type(op))
+                    if cmp_ is None:
+                        bail("unsupported comparison in any()", st)
+                    return ("if existsb (fun %s => %s) v_str_in then\n%s\nelse\n%s"
+                            % (b, cmp_, blk(st.body, ty, cont), blk(st.orelse, ty, cont)))
+            bail("unsupported test in _takes_ascii", st)
+        if isinstance(st, ast.Try):
+            if (st.orelse or st.finalbody or len(st.handlers) != 1 or len(st.body) != 1
+                    or not isinstance(st.body[0], ast.Assign) or len(st.body[0].targets) != 1
+                    or not isinstance(st.body[0].targets[0], ast.Name) or st.body[0].targets[0].id != V
+                    or not _same(st.body[0].value, "str_in.encode('ascii')")):
+                bail("unsupported try statement in _takes_ascii", st)
+            h = st.handlers[0]
+            if not (isinstance(h.type, ast.Name) and h.type.id == "UnicodeEncodeError"):
+                bail("the handler must catch UnicodeEncodeError", st)
+            if ty != TEXT:
+                bail(".encode('ascii') of a value that is not known to be text", st)
+
+            def nofall(_ty):
+                bail("the UnicodeEncodeError handler must end in raise ValueError", st)
+            return ("match encode_ascii v_str_in with\n| Some v_str_in =>\n%s\n| None =>\n%s\nend"
+                    % (cont(BYTES), blk(h.body, ty, nofall)))
+        if isinstance(st, ast.Return):
+            if not _same(st.value, "f(self, str_in, *args, **kwargs)"):
+                bail("unsupported return in _takes_ascii", st)
+            if ty != BYTES:
+                bail("the wrapped method is called with a value that is not known to be bytes", st)
+            return "v_f v_str_in"
+        bail("unsupported statement in _takes_ascii", st)
+
+    def fell(_ty):
+        bail("control falls off the end of the _takes_ascii wrapper", w)
+    text = blk(list(w.body), IN, fell)
+    return ["Definition gen_takes_ascii {A : Type} (v_str_in0 : pyin) (v_f : list Z -> res A) : res A :=\n%s." % text]
+
+
+def check_reserved(fnode, extra_ok=()):
+    """no binding of a name the translator gives a fixed meaning"""
+    bound = []
+    for n in ast.walk(fnode):
+        if isinstance(n, ast.Name) and isinstance(n.ctx, (ast.Store, ast.Del)):
+            bound.append((n.id, n))
+        elif isinstance(n, ast.arg):
+            bound.append((n.arg, n))
+        elif isinstance(n, ast.ExceptHandler) and n.name:
+            bound.append((n.name, n))
+        elif isinstance(n, (ast.FunctionDef, ast.ClassDef, ast.AsyncFunctionDef)) and n is not fnode:
+            bound.append((n.name, n))
+        elif isinstance(n, (ast.Import, ast.ImportFrom, ast.Global, ast.Nonlocal)):
+            bail("import / global / nonlocal inside a function", n)
+    for name, n in bound:
+        if name in RESERVED and name not in extra_ok:
+            bail("the name %r has a fixed meaning in the translator and is rebound" % name, n)
+
+
+def raise_args(nodes):
+    """the (unevaluated) argument expressions of every raise / six.raise_from in the translated code"""
+    out = []
+    for fnode in nodes:
+        for n in ast.walk(fnode):
+            if isinstance(n, ast.Raise):
+                out.append(n.exc if n.exc is not None else ast.Pass())
+                if n.cause is not None:
+                    out.append(n.cause)
+            elif (isinstance(n, ast.Call) and isinstance(n.func, ast.Attribute) and n.func.attr == "raise_from"):
+                out.append(n)
     return out
 
 
@@ -914,6 +1078,19 @@ def translate(src):
     if "isoparser" not in top or not isinstance(top["isoparser"], ast.ClassDef):
         bail("class isoparser not found")
     cls = top["isoparser"]
+    if (cls.decorator_list or cls.keywords or len(cls.bases) != 1 or not isinstance(cls.bases[0], ast.Name)
+            or cls.bases[0].id != "object"):
+        bail("class header must be `class isoparser(object):` without decorators / keywords", cls)
+    names = [n.name for n in tree.body if isinstance(n, (ast.FunctionDef, ast.ClassDef, ast.AsyncFunctionDef))]
+    if sorted(names) != sorted(set(names)):
+        bail("a module-level name is defined twice")
+    mnames = [n.name for n in cls.body if isinstance(n, (ast.FunctionDef, ast.ClassDef, ast.AsyncFunctionDef))]
+    if sorted(mnames) != sorted(set(mnames)):
+        bail("a method is defined twice")
+    for i, n in enumerate(tree.body):
+        if isinstance(n, ast.Expr):
+            if not (i == 0 and isinstance(n.value, ast.Constant) and isinstance(n.value.value, str)):
+                bail("module-level expression statement (only the docstring is accepted)", n)
     methods = {n.name: n for n in cls.body if isinstance(n, ast.FunctionDef)}
     consts = {}
     regex_ok = False
@@ -944,9 +1121,20 @@ def translate(src):
         bail("unexpected set of methods: %r" % sorted(set(methods) ^ expected_methods))
     # pinned, hand-modelled parts
     tail = [n for n in tree.body if isinstance(n, ast.Assign)]
-    pins = {"_takes_ascii": ahash([top.get("_takes_ascii") or bail("_takes_ascii not found")]),
-            "__init__": ahash([methods["__init__"]]),
-            "tail": ahash(tail)}
+    ta = top.get("_takes_ascii")
+    if ta is None or not isinstance(ta, ast.FunctionDef):
+        bail("_takes_ascii not found")
+    translated = [ta] + [top.get(nm) if nm == "_parse_digits" else methods.get(nm) for nm in ORDER]
+    if any(t is None for t in translated):
+        bail("a translated function is missing")
+    for t in translated[1:]:
+        check_reserved(t)
+    pins = {"__init__": ahash([methods["__init__"]]),
+            "tail": ahash(tail),
+            "imports": ahash([n for n in tree.body if isinstance(n, (ast.Import, ast.ImportFrom))]),
+            "raise_args": ahash(raise_args(translated))}
+    if os.environ.get("GEN_ISO_SHOW_PINS"):
+        print(pins)
     for kname, h in pins.items():
         if PINNED[kname] != h:
             bail("the hand-modelled part %r changed (AST hash %s, pinned %s)" % (kname, h, PINNED[kname]))
@@ -958,6 +1146,8 @@ def translate(src):
            "From Coq Require Import ZArith List Bool.",
            "From V Require Import base.Cal iso.IsoBase iso.IsoModel iso.IsoGenLib.",
            "Import ListNotations.", "Open Scope Z_scope.", ""]
+    out += translate_takes_ascii(ta)
+    out.append("")
     for name in ORDER:
         node = top.get(name) if name == "_parse_digits" else methods.get(name)
         if node is None or not isinstance(node, ast.FunctionDef):
